@@ -106,7 +106,7 @@ def run_property(prop, tier, seed, keep=False):
             import random
             random.Random(seed).shuffle(harnesses)  # job order only
         caps = cfg.get("caps", {}).get(tier, {})
-        jobs = caps.get("jobs", 16 if tier == "quick" else 8)
+        jobs = int(os.environ.get("VERIF_JOBS") or caps.get("jobs", 16 if tier == "quick" else 8))
         htime = caps.get("harness_timeout", 600 if tier == "quick" else 3600)
         mem = caps.get("mem_gb", 12 if tier == "quick" else 24)
         for feats in feature_sets:
